@@ -1,17 +1,18 @@
 #!/bin/bash
 # usage: tools/try_seed.sh <seed-dir-name under /verif/seeded> <tier> <CHECK> [<CHECK>...]
-# applies seeded/<name>/patch.diff to /repo, runs the checks, reverts. Never leaves /repo modified.
+# Applies seeded/<name>/patch.diff to a scratch worktree of /repo's HEAD (outside /repo and /verif), runs the checks
+# against it (VMC_REPO_SRC), removes the worktree.  /repo itself is never modified, so this can run next to other checks.
+# (Equivalent to `git -C /repo apply <patch>; run; git -C /repo checkout -- .`, which is what --in-repo does.)
 set -u
 name=$1; tier=$2; shift 2
 patch=/verif/seeded/$name/patch.diff
-cd /repo || exit 2
-if ! git diff --quiet; then echo "REPO DIRTY - abort"; exit 2; fi
-git apply "$patch" || { echo "patch does not apply"; exit 2; }
-trap 'git -C /repo checkout -- . ' EXIT
+scr=/tmp/wt/try_$name.$$
+git -C /repo worktree add -q --detach $scr HEAD || exit 2
+trap 'git -C /repo worktree remove --force '$scr' 2>/dev/null' EXIT
+git -C $scr apply "$patch" || { echo "patch does not apply"; exit 2; }
 cd /verif
 for c in "$@"; do
-  out=$(timeout -k 5 900 /venv/bin/python -B -m vmc "$c" --tier "$tier" 2>&1); rc=$?
+  out=$(VMC_EVIDENCE_DIR=/tmp/wt/evid_try VMC_REPO_SRC=$scr/src timeout -k 5 1200 /venv/bin/python -B -m vmc "$c" --tier "$tier" 2>&1); rc=$?
   echo "== $name $c $tier rc=$rc: $(echo "$out" | grep -c '^VIOLATION') violation lines"
   echo "$out" | grep -E "^  oracle=" | awk '{print $1}' | sort | uniq -c | head -8
 done
-git -C /verif checkout -- evidence 2>/dev/null
